@@ -143,14 +143,25 @@ func (tb *traceBuilder) eventLabel(ci ssa.CallInstruction, o *Origins) (label st
 		}
 		return "LN:" + m, false, true, true
 	}
-	if d.Static != nil && c.moduleFn(d.Static) {
-		for _, in := range Calls(d.Static) {
-			if c.P.Describe(in).Name == fnSignBlinded {
-				return "SIGN", false, false, true
-			}
-		}
+	if d.Static != nil && c.moduleFn(d.Static) && c.reachesSigner(d.Static, 0) {
+		return "SIGN", false, false, true
 	}
 	return "", false, false, false
+}
+
+// reachesSigner: the module function produces blind signatures, itself or through helpers that are new on this
+// tree (the signing function of the reference tree may have been split up).
+func (c *Ctx) reachesSigner(f *ssa.Function, depth int) bool {
+	for _, in := range Calls(f) {
+		d := c.P.Describe(in)
+		if d.Name == fnSignBlinded {
+			return true
+		}
+		if depth < 3 && d.Static != nil && d.Static != f && c.moduleFn(d.Static) && d.Static.Parent() == nil && c.P.IsNewFunc(d.Static) && c.reachesSigner(d.Static, depth+1) {
+			return true
+		}
+	}
+	return false
 }
 
 func (tb *traceBuilder) constName(tbl string, e *Ex) string {
